@@ -23,7 +23,7 @@ func c18Chain(n int, tag string) []base.SuffrageProof {
 	var prev base.State
 
 	for k := 0; k < n; k++ {
-		proofs[k] = c18Proof(k, prev, tag)
+		proofs[k] = c18Proof(k, prev, tag, base.Height(k*2))
 		prev = proofs[k].State()
 	}
 
@@ -31,9 +31,8 @@ func c18Chain(n int, tag string) []base.SuffrageProof {
 }
 
 // c18Proof builds the proof of suffrage height k on top of the state prev.
-func c18Proof(k int, prev base.State, tag string) base.SuffrageProof {
+func c18Proof(k int, prev base.State, tag string, bh base.Height) base.SuffrageProof {
 	{
-		bh := base.Height(k * 2)
 
 		nodes := []base.SuffrageNodeStateValue{isaac.NewSuffrageNodeStateValue(common.Local(k%5), bh)}
 		if k%2 == 1 {
@@ -110,7 +109,9 @@ func c18Run(r *simkit.Run) {
 
 	// 0,1 none; 2 other height; 3 missing; 4 below local; 5 foreign chain; 6 error; 7 duplicate of neighbour;
 	// 8 forged sibling: a proof of the right height that is a valid child of the genuine predecessor, but not the parent of the genuine successor
-	fault := r.Draw("remote_fault", 0, 8)
+	// 9 a lying last proof: valid on its own, in a block above everything local, but of a suffrage height below the local one
+	// (or absurdly far above the chain the remote then serves)
+	fault := r.Draw("remote_fault", 0, 9)
 	faultAt := r.Choose(n)
 	lat := []time.Duration{0, time.Millisecond, 25 * time.Millisecond}
 	errRemote := errors.New("remote error")
@@ -119,6 +120,24 @@ func c18Run(r *simkit.Run) {
 	b := isaac.NewSuffrageStateBuilder(common.NetworkID,
 		func(context.Context) (base.Height, base.SuffrageProof, bool, error) {
 			last := chain[n-1]
+
+			if fault == 9 {
+				faultHit = true
+				r.Fault("lying_last_proof")
+
+				k := 0
+				if local > 0 {
+					k = r.Choose(local) // below the local suffrage height
+				}
+
+				if r.Chance(1, 4) {
+					k = n + 5 + r.Choose(1000) // far above what the remote can serve
+				}
+
+				liar := c18Proof(k, nil, "liar", base.Height(n*2+10))
+
+				return liar.Map().Manifest().Height(), liar, true, nil
+			}
 
 			return last.Map().Manifest().Height(), last, true, nil
 		},
@@ -179,7 +198,7 @@ func c18Run(r *simkit.Run) {
 						faultHit = true
 						r.Fault("forged_sibling_proof")
 
-						return c18Proof(k, chain[k-1].State(), "sibling"), true, nil
+						return c18Proof(k, chain[k-1].State(), "sibling", base.Height(k*2)), true, nil
 					}
 				}
 			}
@@ -218,6 +237,15 @@ func c18Run(r *simkit.Run) {
 			}
 
 			r.Fail("valid-chain-rejected", sig, "a correct remote (0..%d) with local state %d and batch limit %d made Build fail: %v", n-1, local, batch, ret)
+		}
+
+		return
+	}
+
+	if fault == 9 {
+		// the anchor itself lies: an error is the expected answer; "nothing new" (no proofs) is acceptable; proofs are not
+		if len(proofs) > 0 {
+			r.Fail("unlinked-proof-accepted", "lying-last-proof", "the remote's last proof does not belong to the chain it serves, yet Build returned %d proofs", len(proofs))
 		}
 
 		return
@@ -277,7 +305,7 @@ func init() {
 		Run:         c18Run,
 		Real:        []string{"isaac.SuffrageStateBuilder.Build / buildBatch / prove", "isaacblock.SuffrageProof.IsValid / Prove", "util/fixedtree proofs", "util.BatchWork"},
 		Stub:        []string{"remote nodes: harness functions serving a real proof chain with latency and faulty answers", "block maps are signed base.DummyBlockMap"},
-		Rule:        "each run draws a remote history of 1-24 suffrage heights (thorough: 300-700 with the shipped batch size 333), a batch limit 1-8, a local state at a random height (or none), per-request latencies (arrival order inside a batch) and one kind of faulty answer or none: a proof of another height, missing, below the local state, from a foreign chain, an error, a duplicate of the neighbour, a forged sibling (valid child of the genuine predecessor, not the parent of the genuine successor). Build must end in an error or in a gap-free chain local+1..last in which every proof proves against its predecessor; any panic is a violation; a correct remote must not be refused. distinct = event-log hash",
-		Assumptions: []string{"the remote's last proof is honest (it is the anchor of the statement)"},
+		Rule:        "each run draws a remote history of 1-24 suffrage heights (thorough: 300-700 with the shipped batch size 333), a batch limit 1-8, a local state at a random height (or none), per-request latencies (arrival order inside a batch) and one kind of faulty answer or none: a proof of another height, missing, below the local state, from a foreign chain, an error, a duplicate of the neighbour, a forged sibling (valid child of the genuine predecessor, not the parent of the genuine successor), a lying last proof (of a suffrage height below the local one or far above the served chain, in a higher block). Build must end in an error or in a gap-free chain local+1..last in which every proof proves against its predecessor; any panic is a violation; a correct remote must not be refused. distinct = event-log hash",
+		Assumptions: []string{"except for the lying-last-proof fault the remote's last proof is honest (it is the anchor of the statement)"},
 	})
 }
